@@ -562,7 +562,7 @@ class SymNum(Sym):
 
 def _sqrt(x):
     c = ctx()
-    e = _toreal(x.e)
+    e = z3.simplify(_toreal(x.e), som=True)
     key = ("sqrt", e.get_id())
     memo = c.memo.setdefault("sqrt", {})
     if key in memo:
